@@ -80,13 +80,13 @@ Proof. intros sub r chain args pykw H. unfold call. rewrite H. reflexivity. Qed.
 
 (* ---- the lattice used by the correspondence is a strict partial order *)
 Example sub6_irrefl : forall a, sub6 a a = false.
-Proof. intro a. do 7 (destruct a as [|a]; [reflexivity|]). reflexivity. Qed.
+Proof. intro a. do 9 (destruct a as [|a]; [reflexivity|]). reflexivity. Qed.
 
 Example sub6_trans : forall a b c, sub6 a b = true -> sub6 b c = true -> sub6 a c = true.
 Proof.
   intros a b c.
-  do 7 (destruct a as [|a]; [do 7 (destruct b as [|b]; [do 7 (destruct c as [|c]; [cbn; congruence|]); cbn; congruence|]); cbn; congruence|]).
-  do 7 (destruct b as [|b]; [cbn; congruence|]). cbn. congruence.
+  do 9 (destruct a as [|a]; [do 9 (destruct b as [|b]; [do 9 (destruct c as [|c]; [cbn; congruence|]); cbn; congruence|]); cbn; congruence|]).
+  do 9 (destruct b as [|b]; [cbn; congruence|]). cbn. congruence.
 Qed.
 
 (* ---- non-vacuity: the rules visibly at work ------------------------------------------------------ *)
@@ -119,6 +119,20 @@ Example C05_lazy :
        [AExpr 7 (VObj 4); AExpr 8 VNull] [] = (Failed EAmbiguous, []) /\
   call sub6 false [ {| lfuns := [fn 1 (p2 (KTyped 2 false) (KTyped 0 true))]; lexcl := false |} ] [AConst (VObj 6); AExpr 8 VNull] []
     = (Failed ENoMatch, []).
+Proof. vm_compute. repeat split. Qed.
+
+(* "specialization of a mapping" is not transitive (unrelated positions are ignored): f1 beats f2 by
+   the first argument, f2 beats f3 by the second, f1 and f3 are incomparable - nobody beats everybody,
+   so the call is ambiguous in every enumeration order *)
+Example C05_nontransitive :
+  let f1 := fn 1 (p2 (KTyped 7 false) (KAnyOf [2; 3] false)) in
+  let f2 := fn 2 (p2 (KTyped 0 true) (KTyped 7 false)) in
+  let f3 := fn 3 (p2 (KAnyOf [2; 3] false) (KTyped 0 true)) in
+  let m f := (fparams f, @nil (Z * param)) in
+  mapping_spec sub6 (m f1) (m f2) = true /\ mapping_spec sub6 (m f2) (m f3) = true /\
+  mapping_spec sub6 (m f1) (m f3) = false /\ mapping_spec sub6 (m f3) (m f1) = false /\
+  forallb (fun l => outcome_eqb (fst (choose_overload sub6 [l] [AExpr 1 (VObj 8); AExpr 2 (VObj 8)] [])) (Failed EAmbiguous))
+          [[f1; f2; f3]; [f1; f3; f2]; [f2; f1; f3]; [f2; f3; f1]; [f3; f1; f2]; [f3; f2; f1]] = true.
 Proof. vm_compute. repeat split. Qed.
 
 Print Assumptions C05_choose_is_spec.
